@@ -35,6 +35,9 @@ struct Case<'a> {
     builder: Option<&'a bio::pattern_matching::myers::MyersBuilder>,
     /// treat the matcher as a value in the middle of the run (Debug, clone, clone_from, two orders)
     values: bool,
+    /// build the matcher again this many times, each time from a FRESH MyersBuilder with the same
+    /// configuration, and repeat the searches of the first text on it
+    rebuilds: usize,
 }
 
 thread_local! {
@@ -255,6 +258,21 @@ fn run_one(log: &mut Log, tag: &str, c: &Case) {
             let pick = (sel as usize) % grp.len();
             iterator_events(log, mx, c, &c.texts[grp[pick]], pick + 1, sel);
         }
+        for _ in 0..c.rebuilds {
+            let mut again: Option<Mx> = None;
+            log.call("rebuild", json!({}), || {
+                again = Some(build(c.long_impl, c.w, c.p, c.tb));
+                json!({})
+            });
+            match again {
+                Some(m2) => {
+                    for (ti0, &gi) in grp.iter().enumerate().take(2) {
+                        events_for_text(log, &m2, c, &c.texts[gi], ti0 + 1, "rebuilt");
+                    }
+                }
+                None => break,
+            }
+        }
         if c.values {
             // the matcher as a value: Debug, clone(), clone_from() into a used object of another
             // pattern (left over from an earlier run); then the same searches again in reverse
@@ -358,7 +376,7 @@ pub fn drive(log: &mut Log) {
                 continue;
             }
             let ks: Vec<i64> = (0..=(p.len() as i64 + 1)).collect();
-            run_one(log, "ex", &Case { long_impl, w: 8, p, tb: &none, texts: &texts, ks: &ks, builder: None, values: false });
+            run_one(log, "ex", &Case { long_impl, w: 8, p, tb: &none, texts: &texts, ks: &ks, builder: None, values: false, rebuilds: 0 });
             log.oblige("exhaustive_small");
         }
     }
@@ -410,7 +428,7 @@ pub fn drive(log: &mut Log) {
                 log.oblige("k_ge_m");
                 log.oblige("k_255");
                 log.oblige("empty_text");
-                run_one(log, "sw", &Case { long_impl: false, w, p: &p, tb: &tb, texts: &texts, ks: &ks, builder: None, values: false });
+                run_one(log, "sw", &Case { long_impl: false, w, p: &p, tb: &tb, texts: &texts, ks: &ks, builder: None, values: false, rebuilds: 0 });
             }
         }
     }
@@ -475,7 +493,7 @@ pub fn drive(log: &mut Log) {
             if !tb.is_empty() {
                 log.oblige("long_tables");
             }
-            run_one(log, "lg", &Case { long_impl: true, w, p: &p, tb: &tb, texts: &texts, ks: &ks, builder: None, values: false });
+            run_one(log, "lg", &Case { long_impl: true, w, p: &p, tb: &tb, texts: &texts, ks: &ks, builder: None, values: false, rebuilds: 0 });
         }
     }
 
@@ -516,7 +534,7 @@ pub fn drive(log: &mut Log) {
             texts.push(t);
         }
         log.oblige("long_unary_run_to_block_boundary");
-        run_one(log, "ur", &Case { long_impl: true, w, p: &p, tb: &none, texts: &texts, ks: &[0, 1, 2], builder: None, values: false });
+        run_one(log, "ur", &Case { long_impl: true, w, p: &p, tb: &none, texts: &texts, ks: &[0, 1, 2], builder: None, values: false, rebuilds: 0 });
     }
 
     // (e) block-based version: the edit budget is used up exactly at a block seam (see
@@ -546,7 +564,7 @@ pub fn drive(log: &mut Log) {
                             let texts = vec![t];
                             let ki = k as i64;
                             log.oblige("long_budget_exhausted_at_seam");
-                            run_one(log, "sb", &Case { long_impl: true, w, p: &p, tb: &none, texts: &texts, ks: &[ki - 1, ki, ki + 1], builder: None, values: false });
+                            run_one(log, "sb", &Case { long_impl: true, w, p: &p, tb: &none, texts: &texts, ks: &[ki - 1, ki, ki + 1], builder: None, values: false, rebuilds: 0 });
                         }
                     }
                 }
@@ -571,7 +589,7 @@ pub fn drive(log: &mut Log) {
         PROFILE.with(|cell| *cell.borrow_mut() = Some((wt.k, wt.profile.clone())));
         let texts = vec![wt.t.clone()];
         let ks: Vec<i64> = if wt.k > 0 { vec![wt.k - 1, wt.k, wt.k + 1] } else { vec![wt.k, wt.k + 1] };
-        run_one(log, "gs", &Case { long_impl: true, w: wt.w, p: &wt.p, tb: &none, texts: &texts, ks: &ks, builder: None, values: false });
+        run_one(log, "gs", &Case { long_impl: true, w: wt.w, p: &wt.p, tb: &none, texts: &texts, ks: &ks, builder: None, values: false, rebuilds: 0 });
     }
 
     // (g) block-based matcher built by MyersBuilder: a text wildcard swept over every position
@@ -601,7 +619,7 @@ pub fn drive(log: &mut Log) {
                 texts.push(t);
             }
             log.oblige("long_wildcard_swept_over_block_seams");
-            run_one(log, "ws", &Case { long_impl: true, w, p: &p, tb: &tb, texts: &texts, ks: &[0, 1], builder: None, values: false });
+            run_one(log, "ws", &Case { long_impl: true, w, p: &p, tb: &tb, texts: &texts, ks: &[0, 1], builder: None, values: false, rebuilds: 0 });
             if variant == 0 {
                 // N on the first row of every block (and next to the seams)
                 let mut p2 = p.clone();
@@ -619,7 +637,7 @@ pub fn drive(log: &mut Log) {
                     texts2.push(t);
                 }
                 log.oblige("long_ambig_on_block_first_rows");
-                run_one(log, "ws", &Case { long_impl: true, w, p: &p2, tb: &tb, texts: &texts2, ks: &[0, 1], builder: None, values: false });
+                run_one(log, "ws", &Case { long_impl: true, w, p: &p2, tb: &tb, texts: &texts2, ks: &[0, 1], builder: None, values: false, rebuilds: 0 });
             }
         }
     }
@@ -646,7 +664,7 @@ pub fn drive(log: &mut Log) {
                 log.oblige("builder_reused_with_redefinition");
             }
             let calls = h.calls.clone();
-            run_one(log, "bh", &Case { long_impl, w, p: &p, tb: &calls, texts: &texts, ks: &[0, 1, 2], builder: Some(&h.builder), values: false });
+            run_one(log, "bh", &Case { long_impl, w, p: &p, tb: &calls, texts: &texts, ks: &[0, 1, 2], builder: Some(&h.builder), values: false, rebuilds: 0 });
             if stage == 1 {
                 // the builder as a value: a clone and a serde_json round trip of it go their own way
                 // (the clone skips the narrowing stage, the round trip repeats the first stage) while
@@ -654,15 +672,34 @@ pub fn drive(log: &mut Log) {
                 let mut c1 = h.fork_clone();
                 builder_stage(&mut c1, 3);
                 let calls1 = c1.calls.clone();
-                run_one(log, "bh", &Case { long_impl, w, p: &p, tb: &calls1, texts: &texts, ks: &[0, 1], builder: Some(&c1.builder), values: false });
+                run_one(log, "bh", &Case { long_impl, w, p: &p, tb: &calls1, texts: &texts, ks: &[0, 1], builder: Some(&c1.builder), values: false, rebuilds: 0 });
                 log.oblige("builder_cloned_mid_history");
                 let mut c2 = h.fork_serde();
                 builder_stage(&mut c2, 0);
                 let calls2 = c2.calls.clone();
-                run_one(log, "bh", &Case { long_impl, w, p: &p, tb: &calls2, texts: &texts, ks: &[0, 1], builder: Some(&c2.builder), values: false });
+                run_one(log, "bh", &Case { long_impl, w, p: &p, tb: &calls2, texts: &texts, ks: &[0, 1], builder: Some(&c2.builder), values: false, rebuilds: 0 });
                 log.oblige("builder_serde_roundtrip_mid_history");
             }
         }
+    }
+
+    // (j) chained ambiguity tables that are not transitively closed, both declaration orders, MANY
+    //     fresh builders per configuration (the table lives in a HashMap whose iteration order
+    //     differs from builder to builder): 1 + 32 matchers per run
+    let nch = log.opts.n(8, 32);
+    for i in 0..nch {
+        case += 1;
+        if !log.mine(case) {
+            continue;
+        }
+        let mut rng = Rng::new(seed, 19, case);
+        let long_impl = i % 2 == 1;
+        let w = if long_impl { 8 } else { [8usize, 16, 32, 64][(i as usize / 2) % 4] };
+        let m = if long_impl { 9 + rng.below(8) as usize } else { 3 + rng.below(5) as usize };
+        let (tb, p, texts) = chain_config(&mut rng, i, m);
+        log.oblige("ambiguity_chain_not_transitively_closed");
+        log.oblige("many_fresh_builders_same_configuration");
+        run_one(log, "ch", &Case { long_impl, w, p: &p, tb: &tb, texts: &texts, ks: &[0, 1], builder: None, values: false, rebuilds: 32 });
     }
 
     // (i) matcher objects as values, every word type of both implementations: after the first
@@ -690,7 +727,7 @@ pub fn drive(log: &mut Log) {
                     texts.push(planted(&mut rng, &p, n, alpha, b"ACGTN*", 2));
                 }
                 let mi = m as i64;
-                run_one(log, "ov", &Case { long_impl, w, p: &p, tb: &tb, texts: &texts, ks: &[0, 1, (mi / 4).max(2)], builder: None, values: true });
+                run_one(log, "ov", &Case { long_impl, w, p: &p, tb: &tb, texts: &texts, ks: &[0, 1, (mi / 4).max(2)], builder: None, values: true, rebuilds: 0 });
                 if first {
                     first = false;
                     if log.begin("ov", json!({"impl": "long", "w": 8, "p": [], "ambig": [], "wild": [], "part": 0, "texts": [bytes(&texts[0])]})) {
